@@ -54,6 +54,10 @@ def family():
     return _F
 
 
+# `dexcall` events (an `__aexit__` was CALLED, as opposed to its coroutine's first step `dex`) are emitted only for the check that
+# reads them (C08); every other consumer of the event log sees the log as it always was
+DEXCALL = False
+
 class Boom(Exception):
     pass
 
@@ -375,7 +379,8 @@ class Run:
                 # a plain function handing back the coroutine: the CALL (the exit was asked for – `gather` built its list) and the
                 # first step of the coroutine (`dex`) are two events; "called, never started" is asyncio cancelling the wrapping
                 # task before its first step
-                run.ev(t, "dexcall", did)
+                if DEXCALL:
+                    run.ev(t, "dexcall", did)
                 return s._aexit(et, ev, tb)
 
             async def _aexit(s, et, ev, tb):
